@@ -1,4 +1,5 @@
 """C06 — symbolic equality, hashing and ordering obey their algebraic laws."""
+import copy
 import functools
 import re
 
@@ -19,7 +20,8 @@ ASSUMPTIONS = [
     'NaN is not generated (Python equality itself is not reflexive on NaN)',
     'tuples hold only mutually comparable primitives, one primitive kind (numbers or strings) per case, as the quantifier says',
     'hash laws are asserted only where pg.hash does not raise TypeError (unhashable plain containers)',
-    'user classes with asymmetric sym_eq overrides are not generated',
+    'user classes with asymmetric sym_eq overrides are not generated; one class pair (Money / MoneyCash) with a symmetric '
+    'sym_eq that equates instances across the two classes is used for the eq / ne negation law only',
 ]
 BUDGET = {'quick': 8000, 'thorough': 200000}
 
@@ -187,6 +189,25 @@ def _build(d, symbolic):
   return _build_rec(d, symbolic)
 
 
+class Money(pg.Object):
+  """A user class whose equality is by amount, for the class and its subclasses alike."""
+  amount: pg.typing.Any()
+
+  def sym_eq(self, other):
+    return isinstance(other, Money) and pg.eq(self.amount, other.amount)
+
+  def sym_hash(self):
+    return hash((Money, pg.hash(self.amount)))
+
+
+class MoneyCash(Money):
+  pass
+
+
+def _fresh(v):
+  return v.clone(deep=True) if isinstance(v, pg.Symbolic) else copy.deepcopy(v)
+
+
 def _build_rec(d, symbolic):
   if isinstance(d, dict) and '$missing' in d:
     return pg.MISSING_VALUE
@@ -302,6 +323,25 @@ def execute(case):
   def show(*idx):
     return ' ; '.join('%d=%r' % (i, pool[i]) for i in idx)[:900]
 
+  # classes whose (symmetric) user-defined equality relates instances of a class and of its subclass: equality and
+  # inequality stay each other's negation there too (only eq / ne are compared: the order of different classes is
+  # by class name and is not the user's to define)
+  for i in range(n):
+    for j in range(n):
+      try:
+        a, b = Money(amount=_fresh(pool[i])), MoneyCash(amount=_fresh(pool[j]))
+      except RecursionError:
+        raise
+      except Exception:   # pylint: disable=broad-except
+        continue
+      for wa, wb, shape in ((a, b, 'bare'), ([a], [b], 'list'), ({'k': a}, {'k': b}, 'dict')):
+        e, ne_ = pg.eq(wa, wb), pg.ne(wa, wb)
+        if bool(e) == bool(ne_):
+          return res.violate('ne == eq == %r on Money(%r) vs MoneyCash(%r) (%s)' % (e, pool[i], pool[j], shape),
+                             law='ne-not-eq', kinds='user-eq-across-classes', shape=shape)
+        if shape == 'bare' and (a.sym_ne(b) == a.sym_eq(b) or (a != b) == (a == b)):
+          return res.violate('sym_ne / != do not negate sym_eq / == on Money(%r) vs MoneyCash(%r)' % (pool[i], pool[j]),
+                             law='ne-not-eq', kinds='user-eq-across-classes', shape='methods')
   eqm = [[None] * n for _ in range(n)]
   ltm = [[None] * n for _ in range(n)]
   for i in range(n):
